@@ -23,7 +23,7 @@ func checkRingOrigin(w *World, r *Report, rule string) {
 	isItems := func(v ssa.Value) bool { return strings.HasSuffix(w.pathOf(v), ".items") }
 	// ---- Push: grow transfer
 	{
-		g := w.FG(push)
+		g := w.FGI(push)
 		site := w.fnPos(push)
 		var lit *ssa.Alloc
 		for _, al := range w.allocsOf(push, bufT) {
@@ -101,7 +101,7 @@ func checkRingOrigin(w *World, r *Report, rule string) {
 	}
 	// ---- Pop
 	{
-		g := w.FG(pop)
+		g := w.FGI(pop)
 		site := w.fnPos(pop)
 		okR := false
 		for _, x := range g.returns {
@@ -143,7 +143,7 @@ func checkRingOrigin(w *World, r *Report, rule string) {
 	}
 	// ---- PopN
 	{
-		g := w.FG(popn)
+		g := w.FGI(popn)
 		site := w.fnPos(popn)
 		ok := false
 		detail := "no element-wise transfer items[(head+...+i) % mod] -> result[i] found"
